@@ -101,6 +101,9 @@ var contexts = []string{
 	"try (CALL | error) catch .", "[CALL] | length", "(CALL) as [$p] | $p", "del(CALL)?", "to_entries? | map(CALL)", "[limit(3; repeat(CALL))]", "[CALL, CALL]",
 	"getpath([\"a\"])? | CALL", "[.. | CALL]", ".[0]? += CALL", "try (.a |= CALL) catch .", "[range(2) as $i | CALL]", "any(CALL; . == null)", "[CALL] | first?", "null | CALL",
 	"(CALL | tostring?) // 0", "{k: CALL}", "[{k: CALL}]", "\"v=\\(CALL)\"", "CALL | CALL",
+	// inside a path expression, in positions where the emitted value is discarded or only tested
+	"[path(CALL | empty)]", "[path(.a?, (CALL | select(false)), .b?)]", "[path(CALL // .x?)]", "[path((CALL | select(. == null)), .)]", "try [path(reduce (CALL) as $v (.; .))] catch \"E\"", "try [path(foreach (CALL) as $v (.; .; .))] catch \"E\"", "[paths(CALL | false)]?", "try [path(first((CALL | empty), .))] catch \"E\"",
+	"try del(CALL | empty) catch \"E\"", "try ((CALL | empty) |= 1) catch \"E\"", "try [path(if (CALL | not) then . else . end)] catch \"E\"", "try [path(. as $d | (CALL | empty), $d)] catch \"E\"", "try [path(limit(0; CALL), .)] catch \"E\"", "try [path(isempty(CALL) as $e | .)] catch \"E\"", "try [path(label $l | (CALL | break $l), .)] catch \"E\"",
 }
 
 var customInputs = []string{`null`, `1`, `[1,[2]]`, `{"a":[1,2],"b":null}`, `"s"`, `[null,{"a":1}]`}
